@@ -267,8 +267,8 @@ def check_first(col, repo, si, m):
     col.add("C04.R4", f.short, "guard-clears-the-flag", okb, "the guard block must contain exactly flag = false", f.loc)
     # failure if: condition is the flag's C++ name; body throws; attached to the outside block after the loop
     fc = fail[0].value.args[0]
-    okc = isinstance(fc, ast.Call) and call_name(fc) == "cpp_value" and src(fc.args[0]).replace(" ", "") in (
-        f"f'{{{flag_name}.as_cpp()}}'", f"{flag_name}.as_cpp()")
+    from sa.core.templates import parts as _parts, shape as _shape
+    okc = isinstance(fc, ast.Call) and call_name(fc) == "cpp_value" and _shape(_parts(fn, fc.args[0])) == ["{" + f"{flag_name}.as_cpp()" + "}"]
     fadds = [c for c in ast.walk(fn) if isinstance(c, ast.Call) and call_name(c) == "add_statement" and src(c.func.value) == fname]
     okt = len(fadds) == 1 and isinstance(fadds[0].args[0], ast.Call) and call_name(fadds[0].args[0]) == "arbitrary_statement"
     if okt:
